@@ -1,5 +1,5 @@
 (* C03 - control-flow reconstruction restores the source nesting exactly.  Property theorems only. *)
-From Coq Require Import ZArith List Bool String.
+From Coq Require Import ZArith List Bool String Lia.
 From DRX Require Import Model.LingoAst Spec.SpecFlow Proofs.LingoFlowFacts.
 Import ListNotations.
 
@@ -23,3 +23,49 @@ Theorem C03_refuted :
   reconstructed [SWhile 1 [SIf 2 [SX]; SIf 3 [SS 1]]] = false.
 Proof. exact (conj P1_refuted (conj P2_refuted (conj P3_refuted P4_refuted))). Qed.
 Print Assumptions C03_refuted.
+
+(* ---- unbounded part: nests of  if ... then ... end if ---- *)
+From DRX Require Import Py.PyBytes Model.LingoGen Model.LingoOps Model.LingoLoop Spec.SpecLingo Spec.SpecNest
+  Proofs.LingoExecFacts Proofs.LingoStmtFacts Proofs.LingoNestFacts Proofs.LingoNestExec.
+Open Scope Z_scope.
+
+(* For every program built from straight-line statements (assignments to every kind of variable, statement
+   calls) and  if <any expression> then <non-empty body> end if,  nested to ANY depth with ANY number of
+   statements per body (the only bound is the two-byte jump offset of the format): running the handler's
+   compiled code through the stack machine and the control-flow passes (detect = condition_detect, then
+   loop_detect, with the fuel parse_opcodes gives them) yields exactly the source nesting - every statement once,
+   in order, inside the same if, every if with its own condition, no raw jump left - followed by the
+   handler's exit statement.  Proof: induction over the program for the execution (LingoNestExec.exec_p), induction
+   over the nesting depth and the statement list for the passes (LingoNestFacts.detect_nest). *)
+Theorem C03_if_nests_rebuilt_unbounded :
+  forall en props p d off fuel r m,
+  wf_p en p -> agrees_p en props m -> m_stack m = [] -> f_stmts (m_fn m) = [] ->
+  code_at d off (compile_p p ++ [b 1]) ->
+  let pexit := off + zlen (compile_p p) in
+  let exit_st := Stmt pexit (Call "exit" pexit None true false false) in
+  exists r' m',
+    run_ops (ninstr_p p + (1 + fuel)) d off (zlen (compile_p p ++ [b 1])) off r m = Ok (r', m') /\
+    f_stmts (m_fn m') = flats (items en props off p) ++ [exit_st] /\
+    detect (f_stmts (m_fn m')) = Ok (rebuilt en props off p ++ [exit_st]).
+Proof. exact nest_handler. Qed.
+Print Assumptions C03_if_nests_rebuilt_unbounded.
+
+(* the passes alone, on any well-positioned flat list (the form the theorem above shows the machine leaves) *)
+Theorem C03_passes_rebuild_any_nest : forall l lo hi, wp lo hi l -> detect (flats l) = Ok (trees l).
+Proof. exact detect_nest. Qed.
+Print Assumptions C03_passes_rebuild_any_nest.
+
+(* non-vacuity, and agreement with the run used by the bounded theorem: a three-level nest in the test handler *)
+Definition flow_env : env := Build_env flow_names [] flow_locals ["h"%string] [].
+Definition put_s (n : Z) : stmt := SCallS 9 [EInt n].
+Definition c_lt (k : Z) : expr := EBin Lt (ELoc 0) (EInt k).
+Definition nest3 : prog :=
+  PStmt (put_s 1)
+   (PIf (c_lt 2) (PStmt (put_s 3) (PIf (c_lt 4) (PIf (c_lt 5) (PStmt (put_s 6) (PStmt (SSet (TLoc 1) (EInt 7)) PNil)) (PStmt (put_s 8) PNil)) (PStmt (put_s 9) PNil)))
+   (PStmt (put_s 10) PNil)).
+Example C03_nest3_wf : wf_p flow_env nest3.
+Proof. cbn. repeat split; try lia; try discriminate. Qed.
+Example C03_nest3_run :
+  decompile_handler (compile_p nest3 ++ [b 1])
+  = Ok (rebuilt flow_env [] 0 nest3 ++ [let e := zlen (compile_p nest3) in Stmt e (Call "exit" e None true false false)]).
+Proof. vm_compute. reflexivity. Qed.
